@@ -60,8 +60,10 @@ AllBases == Bases \o WorldBases
 VarNames == <<"_h0", "_h1", "_h2", "_h3", "_h4", "_h6", "_rv0", "_rv1", "_fa0", "_fa1", "_fv0", "_fv1", "_dvc", "_dv1", "_dv2", "_ret", "_i", "_l", "_c", "_n", "_v", "_len", "_ls", "_ll", "_ma0", "_ma1",
               "_sub", "_sh", "_e", "_a", "_te", "_h", "f1_sum", "f1_left", "f2_val", "f1__h0", "f1_local", "f1_target", "IFS", "PATH", "HOME", "PWD", "BASH", "RANDOM", "SECONDS", "LINENO", "REPLY", "OPTIND",
               "LF", "OS", "x", "X", "I", "_", "__", "a1", "temp", "errorlevel", "ERRORLEVEL", "tmp9",
-              "lf", "_LEN", "_E", "_DVC", "_RV0", "_FA0", "_H1", "_SUB", "F1_SUM", "F2_VAL", "_I", "_V", "_L">>   \* cmd.exe folds case
-FuncNames == <<"_sah", "_sch", "_ssh", "_ech", "_slg", "_sls", "_stsh", "_stlh", "echo", "eval", "printf", "cat", "test", "read", "local", "exit", "set", "cd", "unset", "end", "main", "f", "F1", "_SAH", "_ECH", "_STLH", "_STSH", "_SLG", "EOF", "eof">>
+              "lf", "_LEN", "_E", "_DVC", "_RV0", "_FA0", "_H1", "_SUB", "F1_SUM", "F2_VAL", "_I", "_V", "_L",   \* cmd.exe folds case
+              "fi", "done", "in", "time", "then", "CD", "DATE", "RANDOM", "cmdcmdline">>
+FuncNames == <<"_sah", "_sch", "_ssh", "_ech", "_slg", "_sls", "_stsh", "_stlh", "echo", "eval", "printf", "cat", "test", "read", "local", "exit", "set", "cd", "unset", "end", "main", "f", "F1", "_SAH", "_ECH", "_STLH", "_STSH", "_SLG", "EOF", "eof",
+              "fi", "done", "then", "do", "esac", "elif", "while", "until", "select", "function", "time", "in", "coproc">>    \* reserved words of Bash
 SetOf(s) == {s[i] : i \in 1..Len(s)}
 Mk(id, base, rho, world) == [id |-> id, base |-> base.name, prog |-> (IF world THEN [body |-> R!Rename(base.body, rho), world |-> [fs |-> <<>>, stdin |-> <<>>]] ELSE [body |-> R!Rename(base.body, rho)]),
                              check |-> (IF world THEN <<"fs", "alog">> ELSE <<>>)]
